@@ -82,7 +82,16 @@ Truncate(j) == [t |-> "truncate", field |-> "-", kind |-> TruncPoints[j].why, fi
 
 MutFaults == UNION {{Mutate(i, k, x) : k \in KindsOf(Fields[i]), x \in FixOpts(Fields[i])} : i \in FieldIdx}
 TruncFaults == {Truncate(j) : j \in 1..Len(TruncPoints)}
-AllFaults == MutFaults \cup TruncFaults
+
+\* A structured multi-field fault family (not reachable by one or two field faults): on the base
+\* image "ladder" every directory holds two sub-directories A and B; Ladder(d) makes the record of B
+\* point at the extent of A in the top d levels, so that the hierarchy is loop-free but has 2^d paths
+\* (a reader that only guards against cycles walks it exponentially long).
+LadderDepths == IF Base = "ladder" THEN {3, 10, 18, 24} ELSE {}
+Ladder(d) == [t |-> "ladder", field |-> "-", kind |-> "alias_sibling", fix |-> FALSE, at |-> d,
+              structure |-> "dir_record", role |-> "extent_pointer"]
+LadderFaults == {Ladder(d) : d \in LadderDepths}
+AllFaults == MutFaults \cup TruncFaults \cup LadderFaults
 
 \* membership in the fault space without building it (used by the judge on every observation)
 InFaultSpace(f) ==
@@ -93,10 +102,13 @@ InFaultSpace(f) ==
                               /\ f = Mutate(i, f.kind, f.fix)
     \/ /\ f.t = "truncate"
        /\ \E j \in 1..Len(TruncPoints) : TruncPoints[j].at = f.at /\ f = Truncate(j)
+    \/ /\ f.t = "ladder"
+       /\ f \in LadderFaults
 
 \* two faults combine when they are not on the same field and at most one truncates
 Compatible(f, fs) == \A g \in fs : /\ f # g
                                     /\ ~(f.t = "truncate" /\ g.t = "truncate")
+                                    /\ ~(f.t = "ladder" /\ g.t = "ladder")
                                     /\ (f.t = "mutate" /\ g.t = "mutate" => f.field # g.field)
 
 Init == faults = {}
